@@ -38,6 +38,11 @@ func needsQuote(v string) bool {
 func quoteFields(v string) string {
 	q := strconv.Quote(v)
 	inner := q[1 : len(q)-1]
+	// The parser takes a field ending in \" for an escaped quote, so a value
+	// that ends in a backslash gets that backslash written as \x5c.
+	if strings.HasSuffix(v, "\\") {
+		inner = inner[:len(inner)-2] + `\x5c`
+	}
 	var sb strings.Builder
 	sb.WriteByte('"')
 	for i := 0; i < len(inner); i++ {
